@@ -213,6 +213,26 @@ struct C06 : Scenario {
 				if (!clash) p.fs.push_back(e);
 			}
 		}
+		if (!print && !prompt && (op.f || op.have_q) && !op.i && p.geti("euid") != 0 && rng.chance(1, 8)) {
+			// a directory of the user's own that has lost its write bit, with an old (longer) file in it that the archive also
+			// holds: the old file can be neither removed nor replaced - the member fails and the old file stays as it is
+			std::string base = "/w/x/y/root/";
+			if (!op.w.empty()) base = (op.w[0] == '/' ? op.w : base + op.w) + "/";
+			for (auto &m : p.members) {
+				if (m.kind != 'f' || m.gpath.empty()) continue;
+				std::string dpath = base + m.gpath;
+				while (dpath.size() > 1 && dpath.back() == '/') dpath.pop_back();
+				bool clash = false;
+				for (auto &x : p.fs) if (x.path == dpath || x.path.compare(0, dpath.size() + 1, dpath + "/") == 0 || dpath.compare(0, x.path.size() + 1, x.path + "/") == 0) clash = true;
+				if (clash) continue;
+				FsEnt d; d.type = 'd'; d.path = dpath; d.mode = 0555; d.uid = d.gid = (int) p.geti("euid"); d.mtime = 1234500000;
+				FsEnt f; f.type = 'f'; f.path = dpath + "/" + m.gname; f.mode = 0644; f.uid = f.gid = (int) p.geti("euid"); f.mtime = 1234567890;
+				f.data.resize(5000); for (size_t k = 0; k < f.data.size(); ++k) f.data[k] = (uint8_t) ('a' + k % 19);
+				p.fs.push_back(d); p.fs.push_back(f);
+				p.sets("ro_dir", "1");
+				break;
+			}
+		}
 		if (prompt) {
 			static const char *ans[] = {"y\n", "n\n", "\n", "a\n", "s\n", "Y\n", "N\n", "q\ny\n", "yes please\n", "no\n", "x\n\n", "A\n", "S\n"};
 			std::string s;
@@ -242,6 +262,7 @@ struct C06 : Scenario {
 		bool has_unsafe = false;
 		int selected = 0;
 		bool interesting = false;
+		int blocked = 0;      // entries that lie directly below a directory of the initial tree the user may not write to
 	};
 
 	static void model_parents(Model &M, const std::string &path, const std::string &stop) {
@@ -273,6 +294,23 @@ struct C06 : Scenario {
 		std::string base = cwd;
 		if (!op.w.empty()) base = op.w[0] == '/' ? op.w : cwd + "/" + op.w;
 		int policy_all = op.f || op.have_q ? 1 : 0;   // 0 prompt, 1 overwrite all, 2 skip all
+		// a directory of the initial tree without write permission for its owner stops an ordinary user from creating,
+		// replacing or removing anything directly below it: such entries fail and leave everything as it was
+		int euid_m = (int) p.geti("euid", 0);
+		auto blocked = [&](const std::string &out) {
+			if (euid_m == 0) return false;
+			std::string a = out;
+			for (;;) {
+				size_t sl = a.rfind('/');
+				if (sl == std::string::npos || sl < cwd.size()) return false;
+				a = a.substr(0, sl);
+				auto it = M.tree.find(a);
+				if (it == M.tree.end()) continue;
+				if (it->second.type != 'd' || !it->second.original) return false;
+				int mode = (int) strtol(it->second.orig_dump.c_str() + 2, nullptr, 8);
+				return (mode & 0200) == 0;
+			}
+		};
 		size_t sp = 0;                                 // position in the prompt script
 		const std::string &script = p.stdin_script;
 		std::vector<std::string> unsafe_dirs, unsafe_paths;
@@ -296,6 +334,7 @@ struct C06 : Scenario {
 				}
 				continue;
 			}
+			if (op.cmd != 'p' && blocked(out) && !(m.kind == 'd' && (op.i || (M.tree.count(out) && M.tree[out].type == 'd')))) { M.blocked++; M.interesting = true; continue; }
 			if (m.kind == 'd') {
 				if (op.i) continue;
 				bool existed = M.tree.count(out) && M.tree[out].type == 'd';
@@ -526,7 +565,9 @@ struct C06 : Scenario {
 				compare(M, env.fs, res, ctx);
 				bool faulted = false;
 				for (auto &l : env.fs.log) if (l.injected) faulted = true;
-				if (res.ok && !M.has_unsafe && !faulted && (r.status != 0 || r.exited))
+				if (res.ok && M.blocked && r.status == 0 && !r.exited)
+					res.fail("C06.exit_status", "exit:blocked", ctx + ": exit status 0 although entries below a directory without write permission could not be extracted");
+				if (res.ok && !M.has_unsafe && !faulted && !M.blocked && (r.status != 0 || r.exited))
 					res.fail("C06.exit_status", "exit", ctx + strf(": exit status %d%s although everything selected could be extracted\nstderr: %s", r.status, r.exited ? " (via exit())" : "", printable(r.err).c_str()));
 			}
 			size_t bad;
@@ -554,6 +595,7 @@ struct C06 : Scenario {
 		count(strf("kind.euid.%d", (int) p.geti("euid")));
 		count("probe.fs_operations", env.fs.log.size());
 		if (M.has_unsafe) count("probe.unsafe_symlink_in_tree");
+		if (M.blocked) count("probe.entries_blocked_by_a_read_only_directory", (uint64_t) M.blocked);
 		for (auto &m : p.members) if (m.mac) { count("probe.macbinary_member"); break; }
 		for (auto &l : env.fs.log) if (l.err == EACCES || l.err == EPERM) { count("fault.F-PERM"); break; }
 		for (auto &l : env.fs.log) if (l.injected) { count("fault.F-SYSCALL." + l.op); break; }
